@@ -160,3 +160,4 @@ package unionstore
 //@   ensures value: result1 == nil ==> result0.Value != "" && result0.Value == ite(gHas(us.memBuffer, k), gVal(us.memBuffer, k), gVal(us.snapshot, k)) && (gHas(us.memBuffer, k) || gHas(us.snapshot, k))
 //@   ensures deleted: gHas(us.memBuffer, k) && gVal(us.memBuffer, k) == "" ==> result1 != nil
 //@   ensures live: gHas(us.memBuffer, k) && gVal(us.memBuffer, k) != "" ==> (result1 == nil || !tikverr.IsErrNotFound(result1))
+//@   ensures absent: result1 != nil && tikverr.IsErrNotFound(result1) ==> (gHas(us.memBuffer, k) && gVal(us.memBuffer, k) == "") || (!gHas(us.memBuffer, k) && (!gHas(us.snapshot, k) || gVal(us.snapshot, k) == ""))
